@@ -95,3 +95,47 @@ func vObserveAll(vm *Context, err error) {
 	_ = vm.RestInput
 	_ = vm.GetErrorText()
 }
+
+// vSymSource returns n symbolic bytes, each constrained to the given
+// alphabet (all of 0x00..0x7F when alphabet is empty).
+func vSymSource(label string, n int, alphabet string) []byte {
+	b := vSymBytes(label, n)
+	for i := range b {
+		if alphabet == "" {
+			vAssume(b[i] < 0x80)
+			continue
+		}
+		ok := false
+		for j := 0; j < len(alphabet); j++ {
+			ok = vOr(ok, b[i] == alphabet[j])
+		}
+		vAssume(ok)
+	}
+	return b
+}
+
+// vWalkCode visits every instruction of a compiled program including the
+// bodies of functions and computed values it defines.
+func vWalkCode(code []ByteCode, n int, depth int, visit func(c ByteCode, pc int, n int)) {
+	if depth > 4 {
+		return
+	}
+	for pc := 0; pc < n && pc < len(code); pc++ {
+		c := code[pc]
+		visit(c, pc, n)
+		switch c.T {
+		case typePushFunction:
+			if v, ok := c.Value.(*VMValue); ok && v != nil {
+				if fd, ok := v.ReadFunctionData(); ok && fd.code != nil {
+					vWalkCode(fd.code, fd.codeIndex, depth+1, visit)
+				}
+			}
+		case typePushComputed:
+			if v, ok := c.Value.(*VMValue); ok && v != nil {
+				if cd, ok := v.ReadComputed(); ok && cd.code != nil {
+					vWalkCode(cd.code, cd.codeIndex, depth+1, visit)
+				}
+			}
+		}
+	}
+}
